@@ -208,6 +208,12 @@ template<typename T, typename C, typename A>
 template<typename FwdSk>
 void kll_sketch<T, C, A>::merge(FwdSk&& other) {
   if (other.is_empty()) return;
+  if (static_cast<const void*>(&other) == static_cast<const void*>(this)) {
+    // merging a sketch into itself: level 0 and the levels array change while they are read, so use a snapshot
+    kll_sketch copy(other);
+    merge(std::move(copy));
+    return;
+  }
   if (m_ != other.m_) {
     throw std::invalid_argument("incompatible M: " + std::to_string(m_) + " and " + std::to_string(other.m_));
   }
